@@ -9,6 +9,10 @@ CLAIMED = {
          "Theorems in coq/Props/C17.v: type equality is an equivalence on well-formed types and coincides with equality of normal forms; matching a pattern against a variable-free type is sound and complete for the structural instantiation relation (with the empty-container rule). The model is tied to the code by running both on ~10^5 generated type pairs per run (all results and substitutions equal) and the property's own predicates are evaluated on the implementation.",
          "Trusted: Coq kernel, extraction (ExtrOcamlBasic), OCaml driver, Go harness; types are modelled as trees (pointer-keyed inProcess sets and aliasing not modelled); general two-sided unification soundness is checked on the implementation by the direct predicate, proved for the matching use the checker makes of it.",
          "DESIGN.md §5 C17"),
+ "C09": ("Coq proof over a transcription of parser/lexer + exhaustive/random differential correspondence",
+         "Theorems in coq/Props/C09.v: the token list partitions the input (source order, no overlap, gaps are white space, idx/end/line/col reproduce the lexeme), longest registered symbolic operator, whole-word keywords and true/false, '.'/'?' never split, literal forms are single tokens, failure only where no rule matches; rule order and pattern texts pinned to the source by a regenerated table lemma. Tied to the code by all strings up to length 4 (quick) / 5 (thorough) over four mixed alphabets and operator sets plus random fragment strings, every token field compared.",
+         "Trusted: Coq kernel, extraction, driver, harness; Go's regexp engine is replaced by hand-written matchers for the ten fixed patterns (tied by the exhaustive sweep and the pinned pattern texts); unicode letter/space tables are generated from the Go toolchain in use.",
+         "DESIGN.md §5 C09"),
 }
 NOT_YET = "machinery for this property is not built yet (work in progress in this repository; see DESIGN.md §5)"
 
